@@ -763,4 +763,249 @@ theorem stepStartTag_sim {H : List Handler} {enc : Enc} {ms : St} {ss : SpecSt} 
         simp only [Bool.not_eq_false'] at hem'
         simp [Spec.EditDoc.emit, hem']
 
+
+/-! ### G. End tags (well-nested: the end tag closes the innermost open element, or nothing) -/
+
+theorem findIdx?_none_of_allZero (hs : List EndTagHandlerItem) (h : ∀ it ∈ hs, it.userCount = 0) :
+    hs.findIdx? (fun it => decide (it.userCount > 0)) = none := by
+  rw [List.findIdx?_eq_none_iff]
+  intro it hit
+  simp [h it hit]
+
+theorem any_active_false_of_allZero (hs : List EndTagHandlerItem) (h : ∀ it ∈ hs, it.userCount = 0) :
+    hs.any (fun it => decide (it.userCount > 0)) = false := by
+  rw [List.any_eq_false]
+  intro it hit
+  simp [h it hit]
+
+theorem runEndTagHandlers_allZero (hs : List EndTagHandlerItem) (h : ∀ it ∈ hs, it.userCount = 0)
+    (t : EndTag) : runEndTagHandlers hs t = (hs, t) := by
+  unfold runEndTagHandlers
+  rw [findIdx?_none_of_allZero hs h]
+
+theorem runEndTagHandlers_last (hs : List EndTagHandlerItem) (h : ∀ it ∈ hs, it.userCount = 0)
+    (hd : EndTagHandler) (t : EndTag) :
+    runEndTagHandlers (hs ++ [{ handler := hd, userCount := 1 }]) t = (hs, hd.run t) := by
+  unfold runEndTagHandlers
+  have : (hs ++ [({ handler := hd, userCount := 1 } : EndTagHandlerItem)]).findIdx?
+      (fun it => decide (it.userCount > 0)) = some hs.length := by
+    rw [List.findIdx?_append, findIdx?_none_of_allZero hs h]
+    simp
+  rw [this]
+  simp
+
+theorem modify_last (hs : List EndTagHandlerItem) (x : EndTagHandlerItem)
+    (f : EndTagHandlerItem → EndTagHandlerItem) :
+    (hs ++ [x]).modify hs.length f = hs ++ [f x] := by
+  induction hs with
+  | nil => simp [List.modify]
+  | cons a hs ih => simp [ih]
+
+
+/-- `stop_matching` for an element without a deferred handler, in closed form. -/
+theorem stopMatching_none (H : List Handler) (s : St) (d : ElementDescriptor) (hn : d.matched.Nodup)
+    (hpos : ∀ i ∈ d.matched, isContentHandler H i = true → 1 ≤ s.counts i)
+    (hidx : d.endTagHandlerIdx = none) (hrc : d.removeContent = true → s.removedCount ≠ 0) :
+    stopMatching H s d = { s with
+      counts := fun i => s.counts i - (if isContentHandler H i && d.matched.contains i then 1 else 0),
+      removedCount := s.removedCount - (if d.removeContent then 1 else 0) } := by
+  unfold stopMatching
+  rw [decCounts_spec H s d.matched hn hpos, hidx]
+  simp only [activateEndTagHandler, decRemoved]
+  cases hr : d.removeContent
+  · simp
+  · have := hrc hr
+    simp [this]
+
+/-- `stop_matching` for an element whose deferred handler is the last of the vector. -/
+theorem stopMatching_some (H : List Handler) (s : St) (d : ElementDescriptor) (hn : d.matched.Nodup)
+    (hpos : ∀ i ∈ d.matched, isContentHandler H i = true → 1 ≤ s.counts i)
+    (hs : List EndTagHandlerItem) (hd : EndTagHandler)
+    (hvec : s.endTagHandlers = hs ++ [{ handler := hd, userCount := 0 }])
+    (hidx : d.endTagHandlerIdx = some hs.length) (hrc : d.removeContent = true → s.removedCount ≠ 0) :
+    stopMatching H s d = { s with
+      counts := fun i => s.counts i - (if isContentHandler H i && d.matched.contains i then 1 else 0),
+      endTagHandlers := hs ++ [{ handler := hd, userCount := 1 }],
+      removedCount := s.removedCount - (if d.removeContent then 1 else 0) } := by
+  unfold stopMatching
+  rw [decCounts_spec H s d.matched hn hpos, hidx]
+  simp only [activateEndTagHandler, decRemoved, hvec, List.length_append, List.length_singleton,
+    Nat.lt_add_one, if_true, modify_last]
+  cases hr : d.removeContent
+  · simp
+  · have := hrc hr
+    simp [this]
+
+
+theorem fresh_endTag_intoBytes (enc : Enc) (name raw : Bytes) :
+    ({ name := name, raw := raw } : EndTag).intoBytes enc = raw := by
+  simp [EndTag.intoBytes, Mutations.serialize, EndTag.serializeSelf]
+
+/-- After the pop, no deferred handler active. -/
+theorem emitEndTag_none (enc : Enc) (S : St) (name raw : Bytes)
+    (hz : ∀ it ∈ S.endTagHandlers, it.userCount = 0)
+    (hE : S.emission = true → S.removedCount = 0) :
+    emitEndTag enc S name raw
+      = ({ S with emission := S.removedCount == 0 }, if S.removedCount == 0 then raw else []) := by
+  unfold emitEndTag
+  simp only [any_active_false_of_allZero _ hz, Bool.false_or]
+  cases hem : S.emission
+  · cases hrc : (S.removedCount == 0)
+    · have hne : ¬ S.removedCount = 0 := by simpa using hrc
+      simp [hem, hne]
+    · have he : S.removedCount = 0 := by simpa using hrc
+      simp [runEndTagHandlers_allZero _ hz, fresh_endTag_intoBytes, he]
+  · have := hE hem
+    simp [this, hem]
+
+/-- After the pop, exactly the last deferred handler is active. -/
+theorem emitEndTag_some (enc : Enc) (S : St) (name raw : Bytes) (hs : List EndTagHandlerItem)
+    (hd : EndTagHandler) (hvec : S.endTagHandlers = hs ++ [{ handler := hd, userCount := 1 }])
+    (hz : ∀ it ∈ hs, it.userCount = 0)
+    (hE : S.emission = true → S.removedCount = 0) :
+    emitEndTag enc S name raw
+      = ({ S with endTagHandlers := hs, emission := S.removedCount == 0 },
+         if S.removedCount == 0 then (hd.run { name := name, raw := raw }).intoBytes enc else []) := by
+  unfold emitEndTag
+  have hany : S.endTagHandlers.any (fun it => decide (it.userCount > 0)) = true := by
+    rw [hvec]; simp
+  simp only [hany, Bool.true_or, if_true]
+  cases hem : S.emission
+  · cases hrc : (S.removedCount == 0)
+    · have hne : ¬ S.removedCount = 0 := by simpa using hrc
+      simp [hvec, runEndTagHandlers_last _ hz, hem, hne]
+    · have he : S.removedCount = 0 := by simpa using hrc
+      simp [hvec, runEndTagHandlers_last _ hz, he]
+  · have := hE hem
+    simp [this, hvec, runEndTagHandlers_last _ hz, hem]
+
+theorem occ_ge_of_mem (H : List Handler) (i : Nat) (it : StackItem) (st : List StackItem)
+    (hc : isContentHandler H i = true) (hm : i ∈ it.data.matched) : 1 ≤ occ H i (it :: st) := by
+  rw [occ_cons]
+  have : it.data.matched.contains i = true := by simpa using hm
+  simp [hc, hm]
+
+theorem stepEndTag_sim {H : List Handler} {enc : Enc} {ms : St} {ss : SpecSt} (h : Sim H enc ms ss)
+    (name raw : Bytes)
+    (hnest : ∀ idx, ss.openEls.findIdx? (fun o => o.lname == asciiLowerBytes name) = some idx → idx = 0) :
+    Sim H enc (Model.step H enc ms (.endTag name raw)).1 (Spec.EditDoc.step H enc ss (.endTag name raw)).1
+      ∧ (Model.step H enc ms (.endTag name raw)).2 = (Spec.EditDoc.step H enc ss (.endTag name raw)).2 := by
+  have hrinvFinal := (stepEndTag_spec H enc ms name raw h.rinv).1
+  simp only [Model.step, Spec.EditDoc.step] at hrinvFinal ⊢
+  unfold stepEndTag at hrinvFinal ⊢
+  simp only at hrinvFinal ⊢
+  obtain ⟨hf, hfo, _, hopen⟩ := flush_sim h
+  rw [← hopen] at hnest
+  generalize flushPendingText H enc ms = fm at hf hfo hrinvFinal
+  generalize flushText H enc ss = fs at hf hfo hnest
+  obtain ⟨ms1, o1⟩ := fm
+  obtain ⟨ss1, o2⟩ := fs
+  simp only at hf hfo hnest hrinvFinal ⊢
+  subst hfo
+  unfold popForEndTag popUpTo at hrinvFinal ⊢
+  rw [hf.rel.findIdx] at hrinvFinal ⊢
+  have hall := hf.rel.allZero
+  have hemrc : ms1.emission = (ms1.removedCount == 0) := hf.rinv.emission
+  cases hfi : ss1.openEls.findIdx? (fun o => o.lname == asciiLowerBytes name) with
+  | none =>
+    -- stray end tag
+    simp only [hfi] at hrinvFinal ⊢
+    rw [emitEndTag_none enc ms1 name raw hall (fun he => hf.removedCount_zero he)]
+    refine ⟨⟨hf.inv, hf.tp, hf.rel, hf.cinv, ⟨hf.rinv.count, rfl, hf.rinv.noUnderflow⟩, hf.nofault, hf.nodup⟩, ?_⟩
+    congr 1
+    rw [← hemrc]
+    exact hf.emit raw
+  | some idx =>
+    have hidx : idx = 0 := hnest idx hfi
+    subst hidx
+    simp only [hfi] at hrinvFinal ⊢
+    obtain ⟨stack, counts, inv, eh, rc, em, tp, f1, f2⟩ := ms1
+    obtain ⟨os, sinv, stp⟩ := ss1
+    have hrel := hf.rel
+    have hcinv := hf.cinv
+    have hcount := hf.rinv.count
+    have hinv := hf.inv
+    have htp := hf.tp
+    have hnd := hf.nodup
+    have hnf := hf.nofault
+    have hnu := hf.rinv.noUnderflow
+    simp only at hrel hcinv hcount hinv htp hnd hnf hnu hemrc hall hfi hrinvFinal ⊢
+    cases hrel with
+    | nil => simp at hfi
+    | @consNone mi so rest ro hs r hn hm hi he =>
+      simp only [List.take_succ_cons, List.take_zero, List.reverse_cons, List.reverse_nil, List.nil_append,
+        List.map_cons, List.map_nil, List.foldl_cons, List.foldl_nil, List.drop_succ_cons, List.drop_zero,
+        Nat.zero_add, List.getElem?_cons_zero, closeAllImplicit, List.append_nil] at hrinvFinal ⊢
+      have hpos : ∀ i ∈ mi.data.matched, isContentHandler H i = true → 1 ≤ counts i := by
+        intro i hi' hc; rw [hcinv i]; have := occ_ge_of_mem H i mi rest hc hi'; omega
+      have hrc : mi.data.removeContent = true → rc ≠ 0 := by
+        intro hr; rw [hcount]; simp [countRemoved, List.filter_cons, hr]
+      rw [stopMatching_none H _ mi.data (hnd mi List.mem_cons_self) hpos hi hrc] at hrinvFinal ⊢
+      have hE : em = true → rc - (if mi.data.removeContent = true then 1 else 0) = 0 := by
+        intro he'; have : rc = 0 := by rw [hemrc] at he'; simpa using he'
+        omega
+      rw [emitEndTag_none enc _ name raw r.allZero hE] at hrinvFinal ⊢
+      have hrc' : rc - (if mi.data.removeContent = true then 1 else 0) = countRemoved rest := by
+        rw [hcount]; cases hr : mi.data.removeContent <;> simp [countRemoved, List.filter_cons, hr]
+      refine ⟨⟨hinv, htp, r, ?_, hrinvFinal, hnf, fun it hit => hnd it (List.mem_cons_of_mem _ hit)⟩, ?_⟩
+      · intro i
+        show counts i - _ = base H i + occ H i rest
+        have := hcinv i
+        rw [occ_cons] at this
+        omega
+      · simp only
+        congr 1
+        have hsup : suppressed { openEls := ro, inv := sinv, textPending := stp } = !(countRemoved rest == 0) := by
+          rw [countRemoved_pos_iff_any, suppressed, r.suppressed]; simp
+        have hemit : ∀ b : Bytes, Spec.EditDoc.emit { openEls := ro, inv := sinv, textPending := stp } b
+            = if (countRemoved rest == 0) = true then b else [] := by
+          intro b; rw [Spec.EditDoc.emit, hsup]; cases (countRemoved rest == 0) <;> rfl
+        rw [hrc']
+        cases hed : so.edit with
+        | none => simp only; rw [hemit]
+        | some E =>
+          simp only
+          rw [hed] at he
+          have := he.2 name raw
+          simp only at this
+          rw [fresh_endTag_intoBytes] at this
+          rw [← this, hemit]
+    | @consSome mi so rest ro hs hd r hn hm hi he =>
+      simp only [List.take_succ_cons, List.take_zero, List.reverse_cons, List.reverse_nil, List.nil_append,
+        List.map_cons, List.map_nil, List.foldl_cons, List.foldl_nil, List.drop_succ_cons, List.drop_zero,
+        Nat.zero_add, List.getElem?_cons_zero, closeAllImplicit, List.append_nil] at hrinvFinal ⊢
+      have hpos : ∀ i ∈ mi.data.matched, isContentHandler H i = true → 1 ≤ counts i := by
+        intro i hi' hc; rw [hcinv i]; have := occ_ge_of_mem H i mi rest hc hi'; omega
+      have hrc : mi.data.removeContent = true → rc ≠ 0 := by
+        intro hr; rw [hcount]; simp [countRemoved, hr]
+      rw [stopMatching_some H _ mi.data (hnd mi List.mem_cons_self) hpos hs hd rfl hi hrc] at hrinvFinal ⊢
+      have hE : em = true → rc - (if mi.data.removeContent = true then 1 else 0) = 0 := by
+        intro he'; have : rc = 0 := by rw [hemrc] at he'; simpa using he'
+        omega
+      rw [emitEndTag_some enc _ name raw hs hd rfl r.allZero hE] at hrinvFinal ⊢
+      have hrc' : rc - (if mi.data.removeContent = true then 1 else 0) = countRemoved rest := by
+        rw [hcount]; cases hr : mi.data.removeContent <;> simp [countRemoved, hr]
+      refine ⟨⟨hinv, htp, r, ?_, hrinvFinal, hnf, fun it hit => hnd it (List.mem_cons_of_mem _ hit)⟩, ?_⟩
+      · intro i
+        show counts i - _ = base H i + occ H i rest
+        have := hcinv i
+        rw [occ_cons] at this
+        omega
+      · simp only
+        congr 1
+        have hsup : suppressed { openEls := ro, inv := sinv, textPending := stp } = !(countRemoved rest == 0) := by
+          rw [countRemoved_pos_iff_any, suppressed, r.suppressed]; simp
+        have hemit : ∀ b : Bytes, Spec.EditDoc.emit { openEls := ro, inv := sinv, textPending := stp } b
+            = if (countRemoved rest == 0) = true then b else [] := by
+          intro b; rw [Spec.EditDoc.emit, hsup]; cases (countRemoved rest == 0) <;> rfl
+        rw [hrc']
+        cases hed : so.edit with
+        | none => rw [hed] at he; exact absurd he.2 (by simp)
+        | some E =>
+          simp only
+          rw [hed] at he
+          have := he.2 name raw
+          simp only at this
+          rw [← this, hemit]
+
 end LolHtml.Lemmas.Refine
